@@ -176,7 +176,7 @@ where
 {
     let ty = <ActorModelState<GA<S, M, T, R>, H> as U>::ty();
     for c in 0..count {
-        let n = r.below(if thorough() { 6 } else { 5 });
+        let n = if r.chance(1, 15) { 0 } else { 1 + r.below(if thorough() { 5 } else { 4 }) };
         // mostly well-formed states; sometimes an id outside 0..n or a per-actor vector of another length
         let id_bound = if r.chance(1, 12) { n + 1 } else { n };
         let mut lens = [n, n, n];
@@ -226,7 +226,7 @@ fn main() {
     let mut out = Out::new();
     out.max_samples = 10;
     let mut r = Rng::new(seed());
-    let k = if thorough() { 20 } else { 1 };
+    let k = if thorough() { 24 } else { 2 };
     // (a) plans + reindex
     plans::<u8>(&mut out, &mut r, 150 * k);
     plans::<bool>(&mut out, &mut r, 40 * k);
